@@ -2,6 +2,9 @@ SPEC = {
     "id": "C10",
     "level": "proof",
     "props": ["props/C10.vo"],
+    "tie": ["props/C10_tieA.vo"],
+    "gen_items": ["src/bytes.rs:concat / join structure"],
+    "tieA_required": True,
     "case_libs": ["theories/CasesConcat.vo"],
     "drivers": [{"driver": "concat", "profiles": ["debug", "release"]}],
     "rule": ("all piece lists of 0-3 pieces over the length alphabet {0,1,12,24} (thorough: {0,1,2,11,12,23,24,30}) x separators of 0-2 bytes, through concat/join (generic, "
